@@ -24,11 +24,14 @@ def jdict (d : Dict) : Json := jarr (d.map (fun e => jarr [Json.str e.1, jint e.
 
 /-! struct -/
 
-def parseSOp (j : Json) : R Op := do
+def parseSOp (members : List String) (j : Json) : R Op := do
   match (← arr j) with
-  | [.str "readStruct", rA, rB] => return .readStruct (← optDict rA) (← (← arr rB).mapM optInt)
+  | [.str "readStruct", rA, rB] =>
+    let rs ← (← arr rB).mapM optInt
+    return .readStruct (← optDict rA) (fun m => ((members.zip rs).lookup m).join)
   | [.str "writeStruct", v, wA, wB] =>
-    return .writeStruct (← parseDict v) (← wresWith parseDict wA) (← (← arr wB).mapM (wresWith (·.getInt?)))
+    let ws ← (← arr wB).mapM (wresWith (·.getInt?))
+    return .writeStruct (← parseDict v) (← wresWith parseDict wA) (fun m => ((members.zip ws).lookup m).getD .fail)
   | [.str "readMember", m, rA, rB] => return .readMember (← m.getStr?) (← optDict rA) (← optInt rB)
   | [.str "writeMember", m, v, wA, rA, wB] =>
     return .writeMember (← m.getStr?) (← v.getInt?) (← wresWith parseDict wA) (← optDict rA) (← wresWith (·.getInt?) wB)
@@ -159,7 +162,7 @@ def handle (j : Json) : R Json := do
   let k ← fldStr j "k"
   match k with
   | "struct" =>
-    let cfg ← structCfg j; let ops ← (← fldArr j "ops").mapM parseSOp
+    let cfg ← structCfg j; let ops ← (← fldArr j "ops").mapM (parseSOp cfg.members)
     return Json.mkObj [("init", stJson (init cfg)), ("states", jarr ((run cfg (init cfg) ops).map stJson))]
   | "judge_struct" =>
     let members ← fldStrs j "members"
